@@ -1,6 +1,10 @@
 package main
 
-import "pdverif/internal/goast"
+import (
+	"strings"
+
+	"pdverif/internal/goast"
+)
 
 func init() { gens["C05"] = genC05 }
 
@@ -74,5 +78,25 @@ func genC05(repo string) (string, error) {
 		return "", err
 	}
 	o.strList("cmps_getOrCreateLocalTSOSuffix", am.Compares(fd), "comparison of the suffix creation txn")
+	cl, err := goast.Load(repo, "client/client.go")
+	if err != nil {
+		return "", err
+	}
+	src, err = funcBodySrc(cl, "", "addLogical")
+	if err != nil {
+		return "", err
+	}
+	o.sb.WriteString("Definition src_addLogical : string := " + goast.Q(src) + ".\n")
+	fd2, err := cl.Func("client", "processTSORequests")
+	if err != nil {
+		return "", err
+	}
+	var firsts []string
+	for _, line := range []string{"firstLogical := addLogical(logical, -count+1, suffixBits)"} {
+		if strings.Contains(cl.Src(fd2.Body), line) {
+			firsts = append(firsts, line)
+		}
+	}
+	o.strList("client_first_logical", firsts, "how the client derives the first value of a batch")
 	return o.sb.String(), nil
 }
